@@ -72,11 +72,17 @@ class Collective:
         collective = []
         collective_matrix = np.full((len(events), len(events)), False)
 
+        # Events are sorted by stop time, not by start time: a later event can only be
+        # skipped for good once its stop time exceeds the window by the longest transit
+        max_transit = (events['stop time'] - events['start time']).max() if len(events) else 0
+
         # Compare all pairs
         for i, event_i in events[:-1].iterrows():
             for j, event_j in events[i + 1 :].iterrows():
-                if event_j['start time'] - event_i['stop time'] > max_steps:
+                if event_j['stop time'] - event_i['stop time'] > max_steps + max_transit:
                     break
+                if event_j['start time'] - event_i['stop time'] > max_steps:
+                    continue
                 if event_i['start time'] - event_j['stop time'] > max_steps:
                     continue
                 if event_i['atom index'] == event_j['atom index']:
